@@ -300,6 +300,55 @@ def r12_4(ctx: Ctx) -> None:
                    form=f"{txt(node)} on `{subject}`" + (" [strand-guarded]" if guarded else ""))
 
 
+def r12_5(ctx: Ctx) -> None:
+    """ qualifier value lists of sliced features are shared with the parent record (Biopython copies the qualifier
+        dict shallowly): the writer must store fresh lists, never mutate a value list in place """
+    from ..index import _walk_functions
+    from ..flow import MUTATORS
+    sites = 0
+    for qual, func in _walk_functions(ctx.repo.mod(HELP).tree, ""):
+        aliases = set()
+        for node in walk_local(func):
+            if isinstance(node, ast.Assign) and len(node.targets) == 1 and isinstance(node.targets[0], ast.Name):
+                val = node.value
+                if (isinstance(val, ast.Subscript) and txt(val.value).endswith(".qualifiers")) or \
+                        (isinstance(val, ast.Call) and isinstance(val.func, ast.Attribute) and val.func.attr in ("get", "setdefault")
+                         and txt(val.func.value).endswith(".qualifiers")):
+                    aliases.add(node.targets[0].id)
+        for node in walk_local(func):
+            bad = None
+            if isinstance(node, (ast.Assign, ast.AugAssign)):
+                targets = node.targets if isinstance(node, ast.Assign) else [node.target]
+                for target in targets:
+                    if isinstance(target, ast.Subscript):
+                        base = target.value
+                        if isinstance(base, ast.Name) and base.id in aliases:
+                            bad = f"element store into `{base.id}`, an alias of a qualifier value list"
+                        elif isinstance(base, ast.Subscript) and txt(base.value).endswith(".qualifiers"):
+                            bad = f"element store into {txt(base)}"
+                    if isinstance(target, ast.Subscript) and txt(target.value).endswith(".qualifiers"):
+                        sites += 1
+                        fresh = isinstance(node, ast.Assign) and (isinstance(node.value, (ast.List, ast.ListComp)) or
+                                                                  (isinstance(node.value, ast.Name) and any(
+                                                                      isinstance(v, (ast.List, ast.ListComp)) for v in bound_from(func, node.value.id))))
+                        ctx.ob("R12.5", HELP, node, qual, f"store {txt(target)[:50]}", fresh,
+                               "an adjusted qualifier is stored as a fresh list in the region feature's own qualifier dict",
+                               form=stmt_key(node))
+            elif isinstance(node, ast.Call) and isinstance(node.func, ast.Attribute) and node.func.attr in MUTATORS:
+                recv = node.func.value
+                if (isinstance(recv, ast.Name) and recv.id in aliases) or \
+                        (isinstance(recv, ast.Subscript) and txt(recv.value).endswith(".qualifiers")):
+                    bad = f"in-place {node.func.attr}() on a qualifier value list"
+            if bad:
+                sites += 1
+                ctx.ob("R12.5", HELP, node, qual, stmt_key(node), False,
+                       "qualifier value lists of the sliced features are shared with the parent record's features (shallow copy "
+                       "of the qualifier dict): mutating one in place changes the full record",
+                       detail=bad, form=stmt_key(node))
+    if sites < 6:
+        raise AnalysisError(f"region writer: expected at least 6 qualifier stores, found {sites}")
+
+
 def run(ctx: Ctx) -> None:
     ctx.rule("R12.1", "writer/adjuster agreement on run-specific cross-reference qualifiers", floor=14)
     ctx.rule("R12.2", "snapshot/restore of locations; no aliasing of parent features", floor=4)
@@ -307,5 +356,7 @@ def run(ctx: Ctx) -> None:
     r12_1(ctx)
     r12_2(ctx)
     r12_3(ctx)
+    ctx.rule("R12.5", "qualifier values are replaced by fresh lists, never mutated in place", floor=6)
+    r12_5(ctx)
     ctx.rule("R12.4", "no unguarded positional access to strand-ordered parts of arbitrary features", floor=1)
     r12_4(ctx)
